@@ -24,6 +24,7 @@ import (
 	"github.com/google/badwolf/storage/memoization"
 	"github.com/google/badwolf/storage/memory"
 	"github.com/google/badwolf/triple"
+	"github.com/google/badwolf/triple/literal"
 	"github.com/google/badwolf/triple/node"
 	"github.com/google/badwolf/triple/predicate"
 )
@@ -473,6 +474,84 @@ func c07ErrorPaths(r *rt.Rec, rng *rand.Rand, wrap func(storage.Store) storage.S
 	}
 }
 
+// c07BigBatch: a lookup never observes only part of one batch of added triples,
+// whatever the size of the batch: while one goroutine adds n triples in one
+// AddTriples call, others keep listing the graph; every listing must hold 0 or n
+// of them.
+func c07BigBatch(r *rt.Rec, rng *rand.Rand, rounds int) {
+	ctx := context.Background()
+	for round := 0; round < rounds; round++ {
+		n := []int{1025, 2048, 3000, 5000}[round%4] + rng.Intn(3)
+		st := memory.NewStore()
+		g, _ := st.NewGraph(ctx, "?g")
+		subj := gen.MustNode("/u", "bulk")
+		ts := make([]*triple.Triple, n)
+		for i := range ts {
+			ts[i] = gen.MustTriple(subj, gen.MustImm(fmt.Sprintf("p%d", i%7)), triple.NewLiteralObject(gen.MustLit(literal.Int64, int64(i))))
+		}
+		r.Begin(fmt.Sprintf("one AddTriples call with %d triples under concurrent listings", n))
+		var wg sync.WaitGroup
+		var mu sync.Mutex
+		partial := map[int]bool{}
+		stop := make(chan struct{})
+		for k := 0; k < 4; k++ {
+			wg.Add(1)
+			go func(k int) {
+				defer wg.Done()
+				for {
+					select {
+					case <-stop:
+						return
+					default:
+					}
+					cnt := 0
+					if k%2 == 0 {
+						ch := make(chan *triple.Triple, 64)
+						go g.TriplesForSubject(ctx, subj, storage.DefaultLookup, ch)
+						for range ch {
+							cnt++
+						}
+					} else {
+						ch := make(chan *triple.Triple, 64)
+						go g.Triples(ctx, storage.DefaultLookup, ch)
+						for range ch {
+							cnt++
+						}
+					}
+					if cnt != 0 && cnt != n {
+						mu.Lock()
+						partial[cnt] = true
+						mu.Unlock()
+					}
+					if cnt == n {
+						return
+					}
+				}
+			}(k)
+		}
+		runtime.Gosched()
+		g.AddTriples(ctx, ts)
+		// readers stop by themselves once they have seen the whole batch
+		done := make(chan struct{})
+		go func() { wg.Wait(); close(done) }()
+		<-done
+		close(stop)
+		r.Eval(1)
+		if len(partial) > 0 {
+			var seen []int
+			for c := range partial {
+				seen = append(seen, c)
+			}
+			sort.Ints(seen)
+			if len(seen) > 6 {
+				seen = seen[:6]
+			}
+			r.Violation("partial-batch-visible/big-batch", fmt.Sprintf("while one AddTriples call added %d triples, listings held %v of them", n, seen), map[string]interface{}{"batch": n, "partial_counts": seen})
+		}
+		r.Nontrivial(fmt.Sprintf("big-batch|%d|%d", round, n))
+	}
+}
+
 // streamWith runs the lookup and calls onElem after every received element.
 func streamWith(ctx context.Context, g storage.Graph, q ref.Query, lo *storage.LookupOptions, onElem func()) error {
 	done := make(chan error, 1)
@@ -769,9 +848,9 @@ func init() {
 		Assume: []string{"schedules are sampled (stress, GOMAXPROCS variation, yield hooks), not enumerated", "a porcupine timeout (30 s) is inconclusive"},
 		Floor:  50,
 		Phases: func(tier string, seed int64) []rt.Phase {
-			gh, sh, bqlr, rg := 320, 96, 48, 64
+			gh, sh, bqlr, rg, bb := 320, 96, 48, 64, 3
 			if tier == "thorough" {
-				gh, sh, bqlr, rg = 5000, 1500, 500, 1000
+				gh, sh, bqlr, rg, bb = 5000, 1500, 500, 1000, 40
 			}
 			return []rt.Phase{
 				{Name: "options-probe", N: 1, Run: func(i int, r *rt.Rec) { c07OptionsProbe(r, gen.Rng(seed, "c07o", i)) }},
@@ -782,6 +861,7 @@ func init() {
 						c07ErrorPaths(r, gen.Rng(seed, "c07e", i), func(s storage.Store) storage.Store { return memoization.New(s) }, "memoized")
 					}
 				}},
+				{Name: "big-batch", N: 4, Procs: 16, Run: func(i int, r *rt.Rec) { c07BigBatch(r, gen.Rng(seed, "c07b", i), bb) }},
 				{Name: "graph-histories", N: 16, Run: func(i int, r *rt.Rec) { c07GraphHistories(r, gen.Rng(seed, "c07g", i), gh/16, i%2 == 1) }},
 				{Name: "store-histories", N: 16, Run: func(i int, r *rt.Rec) { c07StoreHistories(r, gen.Rng(seed, "c07s", i), sh/16) }},
 				{Name: "graph-histories-race", N: 16, Race: true, Run: func(i int, r *rt.Rec) { c07GraphHistories(r, gen.Rng(seed, "c07gr", i), rg/16, i%2 == 1) }},
